@@ -162,7 +162,9 @@ def run_obligation(o: Obligation, seed=0):
             else:
                 d[c][1] += 1
         unknowns.extend(E.unknowns)
-        if o.validate and p.exact and not E.fails and (len(samples) < 4 or rng.random() < 0.02) and len(samples) < 12:
+        # witness validation sample: the first 8 paths, then every 8th path (and a 2% random share), at most 96 per
+        # obligation -- each is pushed through the unpatched code and must agree with the symbolic run
+        if o.validate and p.exact and not E.fails and (len(samples) < 8 or npaths[0] % 8 == 0 or rng.random() < 0.02) and len(samples) < 96:
             asg = {k: str(Fraction(p.assign[k])) for k in E.inputs if k in p.assign}
             samples.append((asg, [(l, [_tofloat(v) for v in vals]) for l, vals in E.record]))
 
